@@ -118,6 +118,7 @@ UNITS = [
         'fns': {
             'impl Vm::run_count': {
                 'props': ['C13', 'C06'],
+                'loop_isolation': True,  # invariant_except_break / loop ensures need an isolated loop
                 'attrs': '#[verifier::exec_allows_no_decreases_clause]',
                 'requires': ['count >= 1'],
                 'ensures': [
